@@ -78,8 +78,12 @@ def interleave_case(draw):
                 every[i][key] = t[key]
             if every[i]["phys"] == "GRAPHS":
                 every[i]["entry"] = "stream_frames"
-            big = [max(a, b) for a, b in zip(t["preset"], every[i]["preset"])]
-            every[i]["preset"] = t["preset"] = big
+            # one preset that fits the statements of both twins (0 = disabled stays possible only if it suits both)
+            both = draw(gen.preset_for(t["statements"] + every[i]["statements"]))
+            for w in every[:i + 1]:
+                if w is t or (w["type"] == "ser" and w.get("preset") == t["preset"] and w.get("share_options")):
+                    pass
+            every[i]["preset"] = t["preset"] = both
             every[i]["share_options"] = t["share_options"] = True
     return {"kind": "interleave", "workloads": wl, "history": history,
             "history_mode": draw(st.lists(st.sampled_from(["abandon", "partial", "fail", "complete"]), min_size=3, max_size=3)),
@@ -271,12 +275,26 @@ sys.path.insert(0, sys.argv[1])
 from vlib import env
 from props import c12
 case = json.load(open(sys.argv[2]))
-h = hashlib.sha256()
-for w in case["workloads"]:
-    for item in c12.solo(w):
-        h.update(item.encode())
-print(h.hexdigest())
+print(json.dumps(c12.digests_of(case)))
 """
+F11_SIG = "C12:F11-rdflib-graphstream-from-quad-generator-depends-on-hash-seed"
+
+
+def via_rdflib_dataset(w):
+    """rdflib's graphs_stream_frames regroups a quad generator through an rdflib Dataset (set iteration order)."""
+    return w["type"] == "ser" and w["integration"] == "rdflib" and w["phys"] == "GRAPHS"
+
+
+def digests_of(case):
+    out = {}
+    for name, pick in (("ordered", lambda w: not via_rdflib_dataset(w)), ("rdflib_dataset", via_rdflib_dataset)):
+        h = hashlib.sha256()
+        for w in case["workloads"]:
+            if pick(w):
+                for item in solo(w):
+                    h.update(item.encode())
+        out[name] = h.hexdigest()
+    return out
 
 
 def body_hashseed(case, acc):
@@ -284,7 +302,7 @@ def body_hashseed(case, acc):
     path = os.path.join(env.WORK, f"c12_{os.getpid()}.json")
     with open(path, "w") as fh:
         json.dump(case, fh)
-    digests = {}
+    runs = {}
     try:
         for hs in ("0", "1", "2", "random"):
             e = dict(os.environ, PYTHONHASHSEED=hs, VERIF_REPO=env.REPO, PYTHONDONTWRITEBYTECODE="1")
@@ -293,18 +311,17 @@ def body_hashseed(case, acc):
                 from vlib.env import HarnessError
 
                 raise HarnessError(f"hash-seed subprocess failed: {p.stderr[-500:]}")
-            digests[hs] = p.stdout.strip()
+            runs[hs] = json.loads(p.stdout.strip().splitlines()[-1])
     finally:
         os.unlink(path)
-    h = hashlib.sha256()
-    for w in case["workloads"]:
-        for item in solo(w):
-            h.update(item.encode())
-    digests["in_process"] = h.hexdigest()
+    runs["in_process"] = digests_of(case)
     if acc is not None:
-        acc.case(case, True, ["hashseed_runs"])
-    if len(set(digests.values())) != 1:
-        return Violation("C12:bytes-depend-on-process-or-hash-seed", f"digests {digests!r}", case)
+        acc.case(case, True, ["hashseed_runs"] + (["has_rdflib_dataset_path"] if any(via_rdflib_dataset(w) for w in case["workloads"]) else []))
+    if len({r["ordered"] for r in runs.values()}) != 1:
+        return Violation("C12:bytes-depend-on-process-or-hash-seed", f"digests {({k: v['ordered'][:12] for k, v in runs.items()})!r}", case)
+    if len({r["rdflib_dataset"] for r in runs.values()}) != 1:
+        return Violation(F11_SIG, "rdflib GraphStream fed by a quad generator: bytes differ between PYTHONHASHSEED values "
+                         f"{({k: v['rdflib_dataset'][:12] for k, v in runs.items()})!r}", case)
     return None
 
 
@@ -334,7 +351,9 @@ def run_shard(spec) -> Acc:
         if spec["part"] == "threads":
             c["reps"] = spec.get("reps", 30)
         v = body(c, acc)
-        if v is not None and v.signature not in known and v.signature not in seen:
+        if v is not None and v.signature in known:
+            acc.known_hits[v.signature] += 1
+        elif v is not None and v.signature not in seen:
             seen.add(v.signature)
             v.case = c
             acc.violations.append(v.to_json())
